@@ -328,7 +328,7 @@ end Legacy
 namespace New
 
 structure State where
-  listeners : Table                    -- bus listeners / mqtt subscriptions / webhook handlers per key, in order
+  listeners : Table                    -- bus listeners / mqtt subscriptions / webhook listeners per key, in order
   ready : List (Nat × Occ)             -- callback tasks created by the bus, FIFO
   started : List Run
   t2c : T2C
@@ -337,27 +337,43 @@ structure State where
   nextId : Nat
   finished : List Nat
 
+/-- deviation flags of the new subsystem: `true` = the shape the code had before the `fix:` commit, `false` = the
+repaired shape.  `Flags.current` is what the correspondence check ties to the working tree. -/
+structure Flags where
+  /-- every `WebhookTriggerDecorator.start` registers its OWN handler with Home Assistant, whose
+  `webhook.async_register` raises when the webhook id already has one ("Handler is already defined!") – the second
+  function using an id fails to start (finding C08-F1).  Repaired: the decorators of one id share ONE registration
+  (`hass.data["pyscript.webhook_trigger"][id]` = the decorators in start order; the first `start` registers
+  `_shared_handler`, which hands the request to each of them; the last `stop` unregisters) – like `Webhook.notify`
+  of the legacy subsystem. -/
+  webhookExclusive : Bool
+deriving DecidableEq, Repr
+
+def Flags.current : Flags := { webhookExclusive := false }
+def Flags.preFix : Flags := { webhookExclusive := true }
+
 /-- `DecoratorManager.start` of one function: `start()` of every decorator in order (decorator `i` = global index).
-`bus.async_listen` and `mqtt.async_subscribe` always succeed; Home Assistant's `webhook.async_register` raises when
-the webhook id already has a handler ("Handler is already defined!") – then the start FAILS (`none`). -/
-def startDecs : Nat → List Dec → Table → Option Table
+`bus.async_listen` and `mqtt.async_subscribe` always succeed; pre-fix a webhook id that already has a handler makes
+the start FAIL (`none`); repaired, the decorator joins the id's listener list. -/
+def startDecs (fl : Flags) : Nat → List Dec → Table → Option Table
   | _, [], n => some n
   | i, d :: rest, n =>
-    if d.kind = .webhook ∧ n .webhook d.key ≠ [] then Option.none
-    else startDecs (i + 1) rest (n.add d.kind d.key i)
+    if fl.webhookExclusive = true ∧ d.kind = .webhook ∧ n .webhook d.key ≠ [] then Option.none
+    else startDecs fl (i + 1) rest (n.add d.kind d.key i)
 
 /-- all functions in order; a failed start stops the decorators already started for THAT function (their listeners
 are removed again: the table is what it was) and the function stays without any trigger (status `invalid`) -/
-def setupFuncs : Nat → List (List Dec) → Table → Table
+def setupFuncs (fl : Flags) : Nat → List (List Dec) → Table → Table
   | _, [], n => n
   | i0, f :: rest, n =>
-    setupFuncs (i0 + f.length) rest (match startDecs i0 f n with | some n' => n' | Option.none => n)
+    setupFuncs fl (i0 + f.length) rest (match startDecs fl i0 f n with | some n' => n' | Option.none => n)
 
-def init (fs : List (List Dec)) : State :=
-  { listeners := setupFuncs 0 fs Table.empty, ready := [], started := [], t2c := [], log := [], emitted := [],
+def init (fl : Flags) (fs : List (List Dec)) : State :=
+  { listeners := setupFuncs fl 0 fs Table.empty, ready := [], started := [], t2c := [], log := [], emitted := [],
     nextId := 0, finished := [] }
 
-/-- the bus creates one callback task per listener of the key -/
+/-- the bus creates one callback task per listener of the key; a webhook request is handed to the listeners of its
+id one after the other by `_shared_handler` (same order, and `take` runs the callbacks in FIFO order anyway) -/
 def deliver (st : State) (o : Occ) : State :=
   { st with ready := st.ready ++ (st.listeners o.kind o.key).map (fun i => (i, o)), log := st.log ++ [o] }
 
@@ -396,10 +412,11 @@ def step (decs : List Dec) (st : State) : Step → State
   | .emit r ek name kw => emit st r ek name kw
   | .finish r => { st with finished := st.finished ++ [r] }
 
-def exec (fs : List (List Dec)) (s : List Step) : State := s.foldl (step fs.flatten) (init fs)
+def exec (fl : Flags) (fs : List (List Dec)) (s : List Step) : State := s.foldl (step fs.flatten) (init fl fs)
 
 /-- decorator `i` (= `d`) has its listener registered after start-up, i.e. its function started -/
-def registered (fs : List (List Dec)) (i : Nat) (d : Dec) : Prop := i ∈ (init fs).listeners d.kind d.key
+def registered (fl : Flags) (fs : List (List Dec)) (i : Nat) (d : Dec) : Prop :=
+  i ∈ (init fl fs).listeners d.kind d.key
 
 def Quiescent (st : State) : Prop := st.ready = []
 
